@@ -12,7 +12,7 @@ import subprocess
 import sys
 import tempfile
 
-from vlib.engine import CaseViolation, Inconclusive, repo_root
+from vlib.engine import CaseViolation, Inconclusive, repo_root, child_python
 from vlib.util import check
 
 PROP = 'C15'
@@ -34,9 +34,9 @@ RULE = ('cases: seeded batch_run calls on a self-identifying fixture model: grid
 ASSUMPTIONS = ['a batch_run call that hangs in Pool.terminate() after a failed execution is the known finding F7; any other hang is inconclusive',
                'fault position = n-th model construction (global ordinal claimed through O_EXCL files), which equals the list position for one '
                'process and approximates it for several', 'a hang outside that mechanism is reported as inconclusive by the watchdog, not as a violation']
-FLOORS = {'quick': {'fault_exc_InjectedOSError': 5, 'batches_after_a_refused_batch_run_call': 11, 'parameter_list_used_for_an_earlier_batch': 8, 'parameter_list_from_a_dict_reused_by_the_caller': 8, 'fault_exc_InjectedModelComplete': 5, 'batches': 100, 'executions_checked': 310, 'records_checked': 1200, 'fault_batches': 30, 'faults_propagated': 30,
+FLOORS = {'quick': {'batches_with_a_run_that_calls_a_deprecated_alias': 3, 'batches_with_spawned_workers': 5, 'fault_exc_InjectedOSError': 5, 'batches_after_a_refused_batch_run_call': 11, 'parameter_list_used_for_an_earlier_batch': 8, 'parameter_list_from_a_dict_reused_by_the_caller': 8, 'fault_exc_InjectedModelComplete': 5, 'batches': 100, 'executions_checked': 310, 'records_checked': 1200, 'fault_batches': 30, 'faults_propagated': 30,
                     'multi_process_batches': 50, 'reordered_batches': 5, 'serial_order_checks': 9, 'limit_below_completion': 15,
-                    'limit_above_completion': 15, 'multi_collector_batches': 20, 'no_collector_batches': 8, 'big_batches_many_runs': 1, 'big_batches_long_runs': 1, 'big_batches_many_repetitions': 1, 'fault_exc_InjectedKeyError': 8, 'collectors_at_completer_priority': 27, 'parameter_list_with_history': 11, 'procs_1': 20, 'procs_2_4': 20, 'procs_5_8': 8, 'procs_9_16': 8},
+                    'limit_above_completion': 15, 'multi_collector_batches': 20, 'no_collector_batches': 6, 'big_batches_many_runs': 1, 'big_batches_long_runs': 1, 'big_batches_many_repetitions': 1, 'fault_exc_InjectedKeyError': 8, 'collectors_at_completer_priority': 27, 'parameter_list_with_history': 10, 'procs_1': 20, 'procs_2_4': 20, 'procs_5_8': 8, 'procs_9_16': 8},
           'thorough': {'batches': 3000, 'fault_batches': 1000, 'reordered_batches': 200, 'procs_9_16': 200}}
 EXHAUSTIVE = {}
 
@@ -98,6 +98,7 @@ def gen_spec(rng, sid, fault_ordinal=None, base=None):
                     use_parameter_list=use_pl, explicit_reps=rng.random() < 0.5,
                     pl_history=use_pl and rng.random() < 0.5,
                     rejected_first=(rng.choice([0, -1, '2', 2.5]) if rng.random() < 0.25 else None),
+                    start_method=(rng.choice(['spawn', 'forkserver']) if procs > 1 and rng.random() < 0.12 else None),
                     pl_from_dict=use_pl and rng.random() < 0.4, pl_warmup=(rng.choice([2, 3, 0]) if use_pl and rng.random() < 0.5 else None),
                     collector_priority=rng.choice([None, None, 0]))   # 0 = same priority as the completing system   # the ParameterList was built before and a parameter removed since
     spec = dict(base)
@@ -111,7 +112,7 @@ def gen_spec(rng, sid, fault_ordinal=None, base=None):
             kind = 'ctor'
         spec['fault'] = {'kind': kind, 'ordinal': fault_ordinal, 'tag': f'fault-{sid}-{fault_ordinal}',
                          'exc': rng.choice(['InjectedFault', 'InjectedFault', 'InjectedKeyError', 'InjectedLookupError', 'InjectedAttributeError',
-                                            'InjectedStop', 'InjectedModelComplete', 'InjectedOSError']),
+                                            'InjectedStop', 'InjectedModelComplete', 'InjectedOSError', 'DeprecatedAliasCall']),
                          't': rng.randint(0, max(0, last)) if kind == 'step' else None}
     return spec
 
@@ -145,7 +146,7 @@ def run_child(ctx, specs):
             with os.fdopen(fd, 'w') as f:
                 json.dump(todo, f)
             try:
-                last = subprocess.run([sys.executable, '-B', os.path.join(here, 'vlib', 'fixtures', 'batch_child.py'), path], capture_output=True,
+                last = subprocess.run(child_python() + [os.path.join(here, 'vlib', 'fixtures', 'batch_child.py'), path], capture_output=True,
                                       text=True, timeout=60 * len(todo) + 120, env=env, cwd=here)
             except subprocess.TimeoutExpired:
                 raise Inconclusive('a batch child interpreter hung beyond its own watchdog')
@@ -206,6 +207,8 @@ def check_batch(ctx, spec, out):
         ctx.count('multi_process_batches')
     if spec.get('pl_history'):
         ctx.count('parameter_list_with_history')
+    if spec.get('start_method'):
+        ctx.count('batches_with_spawned_workers')
     if spec.get('rejected_first') is not None:
         ctx.count('batches_after_a_refused_batch_run_call')
     if spec.get('pl_from_dict'):
@@ -218,6 +221,19 @@ def check_batch(ctx, spec, out):
     pc = spec['processes']
     ctx.count('procs_1' if pc == 1 else ('procs_2_4' if pc <= 4 else ('procs_5_8' if pc <= 8 else 'procs_9_16')))
     fault = spec.get('fault')
+    if fault is not None and fault.get('exc') == 'DeprecatedAliasCall':
+        from vlib.engine import current_mode
+        ctx.count('batches_with_a_run_that_calls_a_deprecated_alias')
+        if current_mode() != 'warnings':
+            fault = None                # only a warning in this interpreter: an ordinary batch
+        else:
+            ctx.count('fault_batches')
+            if 'raised' not in out or not any(c['type'] == 'DeprecationWarning' for c in out['raised'].get('chain', [out['raised']])):
+                raise CaseViolation(f'warnings are errors in this interpreter and execution #{fault["ordinal"]} called a deprecated alias: the '
+                                    f'DeprecationWarning raised inside that execution did not reach the caller of batch_run', got=out.get('raised'),
+                                    got_results=len(out.get('result') or []), **detail)
+            ctx.count('faults_propagated')
+            return
     if out.get('hung_known'):
         ctx.count('fault_batches_hung_in_pool_terminate')
         return
